@@ -8,6 +8,7 @@ import (
 	"fmt"
 	"go/token"
 	"go/types"
+	"os"
 	"reflect"
 	"regexp"
 	"regexp/syntax"
@@ -112,9 +113,27 @@ func (c *Ctx) newTaint() *taintAnalysis {
 func (t *taintAnalysis) computeLexerSafety() {
 	for _, pk := range t.c.Pkgs {
 		r := rel(pk.PkgPath)
-		if !strings.HasSuffix(r, "parser") {
+		// grammar packages (…parser), and any other module package that declares participle grammar structs (string fields
+		// whose tag captures a token with `@`), e.g. the JSON-path grammar of the LogQL json stage
+		isGrammarPkg := strings.HasSuffix(r, "parser")
+		if !isGrammarPkg && strings.HasPrefix(pk.PkgPath, modPath) {
+			sc := pk.Types.Scope()
+			for _, n := range sc.Names() {
+				if tn, ok := sc.Lookup(n).(*types.TypeName); ok {
+					if st, ok := tn.Type().Underlying().(*types.Struct); ok {
+						for i := 0; i < st.NumFields(); i++ {
+							if b, ok := st.Field(i).Type().Underlying().(*types.Basic); ok && b.Kind() == types.String && reGrammarTag.MatchString(st.Tag(i)) {
+								isGrammarPkg = true
+							}
+						}
+					}
+				}
+			}
+		}
+		if !isGrammarPkg {
 			continue
 		}
+		strict := !strings.HasSuffix(r, "parser")
 		// lexer rules: []lexer.SimpleRule{{"Name", `regex`}, …} literals in the package
 		rules := map[string]string{}
 		for _, f := range pk.Syntax {
@@ -141,11 +160,17 @@ func (t *taintAnalysis) computeLexerSafety() {
 				key := pk.PkgPath + "." + n + "." + f.Name()
 				verdict := "safe"
 				// token classes referenced in the tag
+				if strict && !reGrammarTag.MatchString(tag) {
+					continue // not a grammar field of this (non-parser) package
+				}
 				for _, m := range reTagTok.FindAllString(tag, -1) {
 					if rx, isRule := rules[m]; isRule {
 						if why := riskyRegex(rx); why != "" {
 							verdict = "risky: token class " + m + " " + why
 						}
+					} else if strict && len(rules) == 0 && !scannerSafeTokens[m] && strings.Contains(tag, "@") {
+						// a lexer without a rule table (text/scanner): only identifier / number tokens are known harmless
+						verdict = "risky: token class " + m + " of a lexer without a rule table (text/scanner string tokens carry quotes and escapes)"
 					}
 				}
 				// quoted literal alternatives in the tag are fixed keywords: safe
@@ -153,10 +178,16 @@ func (t *taintAnalysis) computeLexerSafety() {
 					verdict = "safe" // not captured from input
 				}
 				t.lexSafe[key] = verdict
+				if os.Getenv("QVET_DEBUG_LEX") != "" {
+					fmt.Fprintf(os.Stderr, "lexSafe %s = %s (tag %q)\n", key, verdict, tag)
+				}
 			}
 		}
 	}
 }
+
+var reGrammarTag = regexp.MustCompile(`@\(?[A-Z@]`)
+var scannerSafeTokens = map[string]bool{"Ident": true, "Int": true, "Float": true, "Dot": true, "OSQBrack": true, "CSQBrack": true, "EOF": true}
 
 var reRule = regexp.MustCompile("\\{\\s*\"([A-Za-z_]+)\"\\s*,\\s*`([^`]*)`")
 var reTagTok = regexp.MustCompile(`[A-Z][A-Za-z_]+`)
@@ -252,6 +283,9 @@ func (t *taintAnalysis) origins(v ssa.Value, cx *tctx, seen map[ssa.Value]bool, 
 	t.budget--
 	seen[v] = true
 	defer delete(seen, v)
+	if taintTrace {
+		fmt.Fprintf(os.Stderr, "%*s%s  [%T %s]\n", depth, "", describeValue(t.c, v), v, v.Type())
+	}
 	taintStack = append(taintStack, describeValue(t.c, v))
 	defer func() { taintStack = taintStack[:len(taintStack)-1] }()
 	if !stringish(v.Type()) {
@@ -348,6 +382,28 @@ func (t *taintAnalysis) storesInto(base ssa.Value, cx *tctx, seen map[ssa.Value]
 				for _, rr := range *x.Referrers() {
 					if st, ok := rr.(*ssa.Store); ok && st.Addr == ssa.Value(x) {
 						out.merge(t.origins(st.Val, cx, seen, depth+1))
+					}
+				}
+			}
+		case *ssa.UnOp:
+			// the cell holds a slice / map (an address-taken or captured variable): element stores go through a reloaded copy
+			// of the header — `t = *cell; &t[i]; *(&t[i]) = v` — and write the same backing array
+			if x.Op == token.MUL && x.X == base && x.Referrers() != nil {
+				for _, lr := range *x.Referrers() {
+					switch y := lr.(type) {
+					case *ssa.IndexAddr:
+						if y.X == ssa.Value(x) && y.Referrers() != nil {
+							for _, rr := range *y.Referrers() {
+								if st, ok := rr.(*ssa.Store); ok && st.Addr == ssa.Value(y) {
+									out.merge(t.origins(st.Val, cx, seen, depth+1))
+								}
+							}
+						}
+					case *ssa.MapUpdate:
+						if y.Map == ssa.Value(x) {
+							out.merge(t.origins(y.Key, cx, seen, depth+1))
+							out.merge(t.origins(y.Value, cx, seen, depth+1))
+						}
 					}
 				}
 			}
@@ -718,8 +774,13 @@ var ruleE1 = &Rule{
 		nth := map[string]int{}
 		for _, s := range t.sinks() {
 			t.budget = 20000
+			taintTrace = osGetenv("QVET_TRACE_TAINT") != "" && strings.Contains(fmt.Sprintf("%s %s", ssaName(s.fn), s.what)+"@"+c.pos(s.pos), osGetenv("QVET_TRACE_TAINT"))
 			os := t.origins(s.val, nil, map[ssa.Value]bool{}, 0)
+			taintTrace = false
 			base := fmt.Sprintf("%s %s", ssaName(s.fn), s.what)
+			if d := osGetenv("QVET_DEBUG_TAINT"); d != "" && strings.Contains(base, d) {
+				fmt.Fprintf(osStderr(), "TAINT %s @%s: %v\n", base, c.pos(s.pos), os)
+			}
 			nth[base]++
 			key := fmt.Sprintf("%s #%d", base, nth[base])
 			var src, unk []string
@@ -754,3 +815,8 @@ var ruleE1 = &Rule{
 }
 
 func init() { register(ruleE1) }
+
+func osGetenv(k string) string { return os.Getenv(k) }
+func osStderr() *os.File       { return os.Stderr }
+
+var taintTrace bool
